@@ -493,7 +493,7 @@ func runExpiry(disabled bool, emit emitter) error {
 		return fmt.Errorf("expiry scenario: listeners did not register")
 	}
 	s := &Step{Op: "Expiry", Disabled: disabled, DeltaMs: 99999}
-	deadline := exp.Add(1500 * time.Millisecond)
+	deadline := exp.Add(2500 * time.Millisecond)
 	for time.Now().Before(deadline) {
 		if srv.VerifOpenSessions() < 2 {
 			s.DeltaMs = int(time.Since(exp) / time.Millisecond)
